@@ -334,7 +334,7 @@ type archiveableDataBlock struct {
 	dataBlock
 	earliestTime     time.Time
 	requestedSamples int
-	complete         chan struct{}
+	complete         chan dataBlock // hands the filled block to the goroutine that writes the file
 	active           bool
 }
 
@@ -450,8 +450,12 @@ func (ds *AnySource) archiveNewDataBlock(block *dataBlock) {
 
 	requestFilled := ab.nSamp >= ab.requestedSamples
 	if requestFilled {
-		close(ab.complete)
+		// Hand the filled block over to the goroutine that writes the file, and let go of it here: from
+		// now on that goroutine alone uses it, while this one may already prepare the next request.
 		ab.active = false
+		ab.complete <- ab.dataBlock
+		ab.segments = nil
+		ab.externalTriggerRowcounts = nil
 	}
 }
 
@@ -1144,12 +1148,10 @@ func (ds *AnySource) StopTriggerCoupling() error {
 	return ds.broker.StopTriggerCoupling()
 }
 
-func (ds *AnySource) writeNPZData(file *os.File) error {
+func (ds *AnySource) writeNPZData(file *os.File, ab *dataBlock, channelNames []string) error {
 	wz := npz.NewWriter(file)
 	defer wz.Close()
 
-	ab := ds.archiveBlock
-	channelNames := ds.ChannelNames()
 	firstFrame := make([]int64, len(ab.segments))
 	for i, stream := range ab.segments {
 		data := stream.rawData
@@ -1182,14 +1184,18 @@ func (ds *AnySource) ArchiveDataBlock(N int, file *os.File, finalName string) er
 	ds.archiveBlock.earliestTime = time.Now()
 	ds.archiveBlock.requestedSamples = N
 	ds.archiveBlock.segments = nil
-	ds.archiveBlock.complete = make(chan struct{})
+	ds.archiveBlock.externalTriggerRowcounts = nil
+	complete := make(chan dataBlock, 1) // room for the one block, so the core loop never waits for the writer
+	ds.archiveBlock.complete = complete
 	ds.archiveBlock.active = true
+	channelNames := ds.ChannelNames()
 
-	// Launch this goroutine, which will execute when the ds.archiveBlock.complete channel is closed
+	// Launch this goroutine, which will execute when the filled block arrives on the complete channel.
+	// It uses only what it is handed here: ds.archiveBlock belongs to the core loop.
 	go func() {
 		// When the archiveBlock is filled, write to npz file.
-		<-ds.archiveBlock.complete
-		if err := ds.writeNPZData(file); err != nil {
+		filled := <-complete
+		if err := ds.writeNPZData(file, &filled, channelNames); err != nil {
 			file.Close()
 		}
 
